@@ -132,6 +132,24 @@ fn main() {
         sample_one(&tc, kind, false, u, v, r);
         if (i % n + i / n % n) % 3 == 0 || (u.abs() <= 2.0 && v.abs() <= 2.0) { sample_one(&tc, kind, true, u, v, r); }
     }));
+    // one axis over the first, middle and last 16 floats of every binade (both signs, 2^-3 .. 2^34), the other over a few
+    // values, every case and both entry points (the thorough tier below sweeps all 2^32 patterns for six textures)
+    {
+        let mut bl: Vec<f32> = vec![];
+        for e in -3..34 { let (lo, mid, hi) = ((2.0f32).powi(e).to_bits(), ((2.0f32).powi(e) * 1.5).to_bits(), (2.0f32).powi(e + 1).to_bits()); for k in 0..16u32 { for b in [lo + k, mid + k, mid - 1 - k, hi - 1 - k] { let x = f32::from_bits(b); bl.push(x); bl.push(-x); } } }
+        let others = [0.5f32, -0.5, 2.0, -3.0];
+        let (nb, no) = (bl.len() as u64, others.len() as u64);
+        rep.set("binade_axis_values", nb);
+        rep.merge(par_range(&cfg, nc * nb * no * 2, |i, r| {
+            let ci = (i / (nb * no * 2)) as usize;
+            let (kind, w, h, ox, oy, borrowed, nested) = cases[ci];
+            let (c, o, swap) = (bl[(i % nb) as usize], others[(i / nb % no) as usize], i / (nb * no) % 2 == 1);
+            let tc = TexCase { w, h, ox, oy, borrowed, nested, parent: &parent, owned: owned[ci].as_ref() };
+            let (u, v) = if swap { (o, c) } else { (c, o) };
+            sample_one(&tc, kind, false, u, v, r);
+            if i % 4 == 0 { sample_one(&tc, kind, true, u, v, r); }
+        }));
+    }
     if !quick {
         // all 2^32 bit patterns on one axis, other axis fixed
         let big: Vec<(Kind, u32, u32)> = vec![(Kind::Repeat, 4, 2), (Kind::Repeat, 1, 1), (Kind::Repeat, 16, 8), (Kind::Clamp, 3, 5), (Kind::Clamp, 1, 1), (Kind::Once, 5, 3)];
